@@ -90,9 +90,12 @@ impl Ctx {
         Ctx { viol: vec![], stats: [0; 16], step: 0, drop_pos: [0; 2], last_grower: usize::MAX, counter: 0, tag: "C13" }
     }
     pub fn v(&mut self, prop: &'static str, msg: String) {
+        // (robust against being called in arena mode: the message is re-created in user mode)
+        let _u = crate::ledger::enter_user();
         if self.viol.len() < 16 {
             self.viol.push((prop, format!("step {}: {}", self.step, msg)));
         }
+        drop(msg);
     }
     pub fn st(&mut self, s: V) {
         self.stats[s as usize] += 1;
